@@ -130,8 +130,12 @@ theorem readGraph_badCount (o : Oracles S W Wd) (ls : List (Line S)) (cl : Line 
 
 theorem readGraph_zero (o : Oracles S W Wd) (ls : List (Line S)) (cl : Line S) (body : List (Line S))
     (h : countPart ls = cl :: body) (hc : cl.countVal o = some 0) :
-    readGraph o ls = .ok { nodes := [], edges := [], id := (scanHeader (hashPart ls)).headers.head?,
-                           constraints := (scanHeader (hashPart ls)).cons, n := none, m := none, w := none } := by
+    readGraph o ls =
+      if !(scanHeader (hashPart ls)).cons.isEmpty then .error .zeroWithConstraints
+      else if body.any Line.isData then .error .zeroWithData
+      else .ok { nodes := [], edges := [], id := (scanHeader (hashPart ls)).headers.head?,
+                 constraints := (scanHeader (hashPart ls)).cons,
+                 n := some 0, m := some 0, w := some o.zeroWidth } := by
   simp only [readGraph, h, hc, if_true]
 
 /-- what `read_graph` does after the edge loop -/
@@ -299,9 +303,25 @@ theorem readGraph_render (o : Oracles S W Wd) (b : BlockDesc S) (h : WFBlock o b
     · subst h0
       have hzero : isZero o b = true := by simp [isZero, hn]
       rw [if_pos hzero] at hz
-      have hl : listedEdges o b = [] := List.isEmpty_iff.1 hz
-      rw [readGraph_zero o _ _ _ (countPart_render b) hcv, hH, hC]
-      simp [graphOf, hzero, hl, buildGraph]
+      obtain ⟨hce, hbl⟩ := hz
+      have hl : listedEdges o b = [] := by
+        unfold listedEdges
+        apply List.filterMap_eq_nil_iff.2
+        intro it hit
+        have := List.all_eq_true.1 hbl it hit
+        cases it with
+        | blank => rfl
+        | edge t u v w => simp [BodyItem.isBlank] at this
+      have hnd : (b.body.map BodyItem.toLine).any Line.isData = false := by
+        rw [List.any_eq_false]
+        intro l hl'
+        obtain ⟨it, hit, rfl⟩ := List.mem_map.1 hl'
+        have := List.all_eq_true.1 hbl it hit
+        cases it with
+        | blank => simp [BodyItem.toLine, Line.isData, Line.isBlank]
+        | edge t u v w => simp [BodyItem.isBlank] at this
+      rw [readGraph_zero o _ _ _ (countPart_render b) hcv, hC, hH, hnd]
+      simp [graphOf, hzero, hl, buildGraph, hce]
     · have hzero : isZero o b = false := by
         simp only [isZero, hn, decide_eq_false_iff_not]
         intro h; exact h0 (Option.some.inj h)
@@ -586,62 +606,102 @@ theorem mem_cons_of_subpath (hs : List (Line S)) (toks : List S) (a b : S)
   rw [(zip_tail_eq_nil toks).2 h2] at he
   cases he
 
-theorem malformed_error (o : Oracles S W Wd) (ls : List (Line S)) (hm : Malformed o ls)
-    (hz : ¬ ZeroCount o ls) : ∃ e, readGraph o ls = .error e := by
+omit [DecidableEq S] in
+theorem lineEdges_nil_of_noData (o : Oracles S W Wd) (body : List (Line S))
+    (h : body.any Line.isData = false) : lineEdges o body = [] := by
+  unfold lineEdges
+  apply List.filterMap_eq_nil_iff.2
+  intro l hl
+  have := List.any_eq_false.1 h l hl
+  cases l with
+  | header t => rfl
+  | subpath t => rfl
+  | blank => rfl
+  | data t toks => simp [Line.isData, Line.isBlank, Line.isHash] at this
+
+theorem malformed_error (o : Oracles S W Wd) (ls : List (Line S)) (hm : Malformed o ls) :
+    ∃ e, readGraph o ls = .error e := by
   cases hcp : countPart ls with
   | nil => exact ⟨_, readGraph_missing o ls hcp⟩
   | cons cl body =>
     cases hcv : cl.countVal o with
     | none => exact ⟨_, readGraph_badCount o ls cl body hcp hcv⟩
     | some n =>
-      have hn : n ≠ 0 := by
-        intro h0; subst h0; exact hz ⟨cl, body, hcp, hcv⟩
-      rw [readGraph_nonzero o ls cl body n hcp hcv hn]
-      have bad : ∀ l ∈ body, lineBad o l = true →
-          ∃ e, finish o (scanHeader (hashPart ls)) (parseEdges o body ({} : Gr S W)) = .error e := by
-        intro l hl hb
-        obtain ⟨e, he⟩ := parseEdges_bad o body {} ⟨l, hl, hb⟩
-        exact ⟨e, by rw [he]; rfl⟩
-      cases hm with
-      | missingCount h => rw [h] at hcp; cases hcp
-      | badCount cl' body' h hc =>
-        rw [h] at hcp; cases hcp; rw [hc] at hcv; cases hcv
-      | badEdgeLine t toks hmem hl =>
-        rw [hcp] at hmem
-        exact bad _ hmem (lineBad_of_length o t toks hl)
-      | badWeight t u v ws hmem hw =>
-        rw [hcp] at hmem
-        exact bad _ hmem (lineBad_of_weight o t u v ws hw)
-      | absentEdge toks a b hs he hab =>
-        rw [hcp] at hab
-        cases hp : parseEdges o body ({} : Gr S W) with
-        | error e => exact ⟨e, rfl⟩
-        | ok g =>
-          obtain ⟨_, rfl⟩ := (parseEdges_ok_iff o body {} g).1 hp
-          refine ⟨.constraintEdgeMissing, ?_⟩
-          have hfalse : ¬ ((scanHeader (hashPart ls)).cons.all (fun c => c.all fun e =>
-              (addEdges ({} : Gr S W) (lineEdges o body)).hasEdge e.1 e.2) = true) := by
-            intro hall
-            obtain ⟨c, hc, hce⟩ := mem_cons_of_subpath (hashPart ls) toks a b hs he
-            have h1 := List.all_eq_true.1 hall c hc
-            have h2 := List.all_eq_true.1 h1 (a, b) hce
-            rw [addEdges_hasEdge] at h2
-            rcases h2 with h2 | h2
-            · simp [Gr.hasEdge] at h2
-            · obtain ⟨t, ws, hmem⟩ := mem_lineEdges_key o body a b h2
-              exact hab t ws hmem
-          simp only [finish, hfalse]
-          rfl
+      by_cases hn : n = 0
+      · subst hn
+        rw [readGraph_zero o ls cl body hcp hcv]
+        have dataErr : ∀ t toks, Line.data t toks ∈ body →
+            ∃ e, (if !(scanHeader (hashPart ls)).cons.isEmpty then .error .zeroWithConstraints
+              else if body.any Line.isData then .error .zeroWithData
+              else .ok { nodes := [], edges := [], id := (scanHeader (hashPart ls)).headers.head?,
+                         constraints := (scanHeader (hashPart ls)).cons,
+                         n := some 0, m := some 0, w := some o.zeroWidth } :
+                Except PErr (PGraph S W Wd)) = .error e := by
+          intro t toks hmem
+          have hany : body.any Line.isData = true :=
+            List.any_eq_true.2 ⟨_, hmem, by simp [Line.isData, Line.isBlank, Line.isHash]⟩
+          by_cases hc : (!(scanHeader (hashPart ls)).cons.isEmpty) = true
+          · exact ⟨.zeroWithConstraints, by rw [if_pos hc]⟩
+          · exact ⟨.zeroWithData, by rw [if_neg hc, if_pos hany]⟩
+        cases hm with
+        | missingCount h => rw [h] at hcp; cases hcp
+        | badCount cl' body' h hc =>
+          rw [h] at hcp; cases hcp; rw [hc] at hcv; cases hcv
+        | badEdgeLine t toks hmem hl => rw [hcp] at hmem; exact dataErr t toks hmem
+        | badWeight t u v ws hmem hw => rw [hcp] at hmem; exact dataErr t _ hmem
+        | absentEdge toks a b hs he hab =>
+          obtain ⟨c, hc, _⟩ := mem_cons_of_subpath (hashPart ls) toks a b hs he
+          have hne : (!(scanHeader (hashPart ls)).cons.isEmpty) = true := by
+            cases hcons : (scanHeader (hashPart ls)).cons with
+            | nil => rw [hcons] at hc; cases hc
+            | cons x xs => rfl
+          exact ⟨.zeroWithConstraints, by rw [if_pos hne]⟩
+      · rw [readGraph_nonzero o ls cl body n hcp hcv hn]
+        have bad : ∀ l ∈ body, lineBad o l = true →
+            ∃ e, finish o (scanHeader (hashPart ls)) (parseEdges o body ({} : Gr S W)) = .error e := by
+          intro l hl hb
+          obtain ⟨e, he⟩ := parseEdges_bad o body {} ⟨l, hl, hb⟩
+          exact ⟨e, by rw [he]; rfl⟩
+        cases hm with
+        | missingCount h => rw [h] at hcp; cases hcp
+        | badCount cl' body' h hc =>
+          rw [h] at hcp; cases hcp; rw [hc] at hcv; cases hcv
+        | badEdgeLine t toks hmem hl =>
+          rw [hcp] at hmem
+          exact bad _ hmem (lineBad_of_length o t toks hl)
+        | badWeight t u v ws hmem hw =>
+          rw [hcp] at hmem
+          exact bad _ hmem (lineBad_of_weight o t u v ws hw)
+        | absentEdge toks a b hs he hab =>
+          rw [hcp] at hab
+          cases hp : parseEdges o body ({} : Gr S W) with
+          | error e => exact ⟨e, rfl⟩
+          | ok g =>
+            obtain ⟨_, rfl⟩ := (parseEdges_ok_iff o body {} g).1 hp
+            refine ⟨.constraintEdgeMissing, ?_⟩
+            have hfalse : ¬ ((scanHeader (hashPart ls)).cons.all (fun c => c.all fun e =>
+                (addEdges ({} : Gr S W) (lineEdges o body)).hasEdge e.1 e.2) = true) := by
+              intro hall
+              obtain ⟨c, hc, hce⟩ := mem_cons_of_subpath (hashPart ls) toks a b hs he
+              have h1 := List.all_eq_true.1 hall c hc
+              have h2 := List.all_eq_true.1 h1 (a, b) hce
+              rw [addEdges_hasEdge] at h2
+              rcases h2 with h2 | h2
+              · simp [Gr.hasEdge] at h2
+              · obtain ⟨t, ws, hmem⟩ := mem_lineEdges_key o body a b h2
+                exact hab t ws hmem
+            simp only [finish, hfalse]
+            rfl
 
 /-! ## the stored counts -/
 
 theorem readGraph_ok_shape (o : Oracles S W Wd) (ls : List (Line S)) (g : PGraph S W Wd)
     (h : readGraph o ls = .ok g) :
     (Gr.WF ⟨g.nodes, g.edges⟩) ∧
-    ((ZeroCount o ls ∧ g.nodes = [] ∧ g.edges = [] ∧ g.n = none ∧ g.m = none ∧ g.w = none) ∨
-     (¬ ZeroCount o ls ∧ g.n = some g.nodes.length ∧ g.m = some g.edges.length ∧
-        g.w = some (o.width g.nodes g.edges) ∧
-        ∀ x y z, (x, y, z) ∈ g.edges ↔ lastWeight (lineEdges o (countPart ls).tail) (x, y) = some z)) := by
+    g.n = some g.nodes.length ∧ g.m = some g.edges.length ∧
+    (∀ x y z, (x, y, z) ∈ g.edges ↔ lastWeight (lineEdges o (countPart ls).tail) (x, y) = some z) ∧
+    (ZeroCount o ls → g.nodes = [] ∧ g.edges = [] ∧ g.constraints = [] ∧ g.w = some o.zeroWidth) ∧
+    (¬ ZeroCount o ls → g.w = some (o.width g.nodes g.edges)) := by
   cases hcp : countPart ls with
   | nil => rw [readGraph_missing o ls hcp] at h; cases h
   | cons cl body =>
@@ -650,9 +710,25 @@ theorem readGraph_ok_shape (o : Oracles S W Wd) (ls : List (Line S)) (g : PGraph
     | some n =>
       by_cases hn : n = 0
       · subst hn
+        have hz : ZeroCount o ls := ⟨cl, body, hcp, hcv⟩
         rw [readGraph_zero o ls cl body hcp hcv] at h
-        cases h
-        exact ⟨Gr.WF.empty, Or.inl ⟨⟨cl, body, hcp, hcv⟩, rfl, rfl, rfl, rfl, rfl⟩⟩
+        split at h
+        · cases h
+        · rename_i hc
+          split at h
+          · cases h
+          · rename_i hd
+            cases h
+            have hce : (scanHeader (hashPart ls)).cons = [] := by
+              cases hcons : (scanHeader (hashPart ls)).cons with
+              | nil => rfl
+              | cons x xs => rw [hcons] at hc; simp at hc
+            have hle : lineEdges o body = [] :=
+              lineEdges_nil_of_noData o body (by simpa using hd)
+            refine ⟨Gr.WF.empty, rfl, rfl, ?_, fun _ => ⟨rfl, rfl, hce, rfl⟩, fun h' => absurd hz h'⟩
+            intro x y z
+            rw [List.tail_cons, hle]
+            simp [lastWeight]
       · have hz : ¬ ZeroCount o ls := by
           rintro ⟨cl', body', h1, h2⟩
           rw [hcp] at h1; cases h1; rw [hcv] at h2; exact hn (Option.some.inj h2)
@@ -666,7 +742,7 @@ theorem readGraph_ok_shape (o : Oracles S W Wd) (ls : List (Line S)) (g : PGraph
           split at h
           · split at h
             · cases h
-              refine ⟨addEdges_WF Gr.WF.empty _, Or.inr ⟨hz, rfl, rfl, rfl, ?_⟩⟩
+              refine ⟨addEdges_WF Gr.WF.empty _, rfl, rfl, ?_, fun h' => absurd h' hz, fun _ => rfl⟩
               intro x y z
               rw [List.tail_cons]
               have := mem_addEdges_edges ({} : Gr S W) (lineEdges o body) x y z
